@@ -11,19 +11,73 @@ from vf.core import REPO, HarnessError
 SELFIES_DIR = os.path.join(REPO, "selfies") + os.sep
 
 
+class Stalled(Exception):
+    """no thread made any progress for STALL_S seconds although every one of them is inside a call that takes
+    milliseconds when run alone: the calls wait for each other (or for something nobody will release)"""
+
+    def __init__(self, where, detail=""):
+        Exception.__init__(self, where, detail)
+        self.where = where
+        self.detail = detail
+
+
+BLOCK_S = 1.0      # a thread that executes no opcode for this long is treated as blocked (in a lock, say): others are run
+STALL_S = 30.0     # all unfinished threads blocked for this long: Stalled
+
+
+def _where(tid):
+    f = sys._current_frames().get(tid)
+    while f is not None and not f.f_code.co_filename.startswith(SELFIES_DIR):
+        f = f.f_back
+    if f is None:
+        return "?"
+    return "%s.%s" % (os.path.splitext(os.path.basename(f.f_code.co_filename))[0], f.f_code.co_name)
+
+
+def run_watched(fn, stall_s=STALL_S):
+    """fn() on a thread of its own; Stalled when the thread's innermost frame does not move for stall_s seconds
+    (progress based: a slow call keeps moving, a call waiting for a lock nobody releases does not)"""
+    import time
+    box = []
+
+    def target():
+        try:
+            box.append(("ok", fn()))
+        except BaseException as e:  # noqa
+            box.append(("exc", e))
+    t = threading.Thread(target=target, daemon=True)
+    t.start()
+    t.join(0.05)
+    last, t0 = None, time.monotonic()
+    while t.is_alive():
+        t.join(0.25)
+        f = sys._current_frames().get(t.ident)
+        cur = (id(f), f.f_lasti) if f is not None else None
+        now = time.monotonic()
+        if cur != last:
+            last, t0 = cur, now
+        elif now - t0 > stall_s:
+            raise Stalled(_where(t.ident))
+    if box[0][0] == "exc":
+        raise box[0][1]
+    return box[0][1]
+
+
 class Sched:
     def __init__(self, jobs, schedule, wait_s=120):
         self.jobs = jobs
         self.schedule = list(schedule)
         self.n = len(jobs)
         self.sems = [threading.Semaphore(0) for _ in jobs]
-        self.back = threading.Semaphore(0)
+        self.backs = [threading.Semaphore(0) for _ in jobs]
         self.done = [False] * self.n
         self.results = [None] * self.n
         self.budget = [0] * self.n
         self.steps = [0] * self.n
         self.wait_s = wait_s
         self.switches_mid_call = 0
+        self.blocked_events = 0
+        self.tids = [None] * self.n
 
     def _tracer(self, i):
         def local(frame, event, arg):
@@ -31,7 +85,7 @@ class Sched:
                 self.steps[i] += 1
                 self.budget[i] -= 1
                 if self.budget[i] <= 0:
-                    self.back.release()
+                    self.backs[i].release()
                     self.sems[i].acquire()
             return local
 
@@ -44,6 +98,7 @@ class Sched:
         return glob
 
     def _worker(self, i):
+        self.tids[i] = threading.get_ident()
         self.sems[i].acquire()
         sys.settrace(self._tracer(i))
         try:
@@ -54,30 +109,66 @@ class Sched:
         finally:
             sys.settrace(None)
             self.done[i] = True
-            self.back.release()
+            self.backs[i].release()
 
     def run(self):
+        import time
         ths = [threading.Thread(target=self._worker, args=(i,), daemon=True) for i in range(self.n)]
         for t in ths:
             t.start()
         k = 0
         last = None
+        blocked = set()       # threads that were given a budget and neither used it up nor finished: they wait inside a C call
+
+        def reap():
+            for b in list(blocked):
+                if self.backs[b].acquire(blocking=False):
+                    blocked.discard(b)
+
         while not all(self.done):
+            reap()
+            live = [j for j in range(self.n) if not self.done[j]]
+            if not live:
+                break
+            if all(j in blocked for j in live):
+                # nobody can run: wait for one of them to come back
+                t0 = time.monotonic()
+                snap = list(self.steps)
+                while live and all(j in blocked for j in live):
+                    time.sleep(0.05)
+                    reap()
+                    live = [j for j in live if not self.done[j]]
+                    if snap != self.steps:
+                        snap, t0 = list(self.steps), time.monotonic()
+                    elif time.monotonic() - t0 > STALL_S:
+                        raise Stalled(_where(self.tids[live[0]]), "all %d unfinished threads blocked" % len(live))
+                continue
             if k < len(self.schedule):
                 i, q = self.schedule[k]
                 k += 1
                 i %= self.n
             else:
-                i, q = next(j for j in range(self.n) if not self.done[j]), 10 ** 9
-            if self.done[i]:
+                i, q = next(j for j in live if j not in blocked), 10 ** 9
+            if self.done[i] or i in blocked:
                 continue
             if last is not None and last != i and not self.done[last] and self.steps[last] > 0 and self.steps[i] > 0:
                 self.switches_mid_call += 1
             last = i
             self.budget[i] = max(1, q)
             self.sems[i].release()
-            if not self.back.acquire(timeout=self.wait_s):
-                raise HarnessError("scheduler: thread %d did not come back within %d s" % (i, self.wait_s))
+            t0 = tstart = time.monotonic()
+            s0 = self.steps[i]
+            while not self.backs[i].acquire(timeout=0.25):
+                now = time.monotonic()
+                if self.steps[i] != s0:
+                    s0, t0 = self.steps[i], now
+                elif now - t0 > BLOCK_S:
+                    # it waits for something (a lock another - paused - thread holds?): let the others run
+                    blocked.add(i)
+                    self.blocked_events += 1
+                    break
+                if now - tstart > self.wait_s:
+                    raise HarnessError("scheduler: thread %d did not use up its segment within %d s" % (i, self.wait_s))
         for t in ths:
             t.join(self.wait_s)
         return self.results
@@ -109,3 +200,36 @@ def selftest():
     rb = b.run()
     assert ra == rb and a.steps == b.steps and a.steps[0] > 100 and a.steps[1] > 100, (ra, rb, a.steps, b.steps)
     assert a.switches_mid_call >= 2
+    # a job that takes a lock the other (paused) job holds is not a deadlock: the holder is run on, and both finish
+    lk = threading.Lock()
+
+    def locked():
+        with lk:
+            return sf.decoder("[C][=C][Branch1][C][O][C][Ring1][Ring2]")
+    c = Sched([locked, locked], [(0, 40), (1, 40), (0, 10), (1, 10 ** 6), (0, 10 ** 6)])
+    rc = c.run()
+    assert rc[0] == rc[1] == ra[0] and c.blocked_events >= 1, (rc, c.blocked_events)
+    # a lock nobody releases is one
+    lk2 = threading.Lock()
+
+    def leaky():
+        lk2.acquire()
+        return sf.decoder("[C][=C]")
+    global STALL_S
+    old, STALL_S = STALL_S, 2.0
+    try:
+        try:
+            Sched([leaky, leaky], [(0, 10 ** 6), (1, 10 ** 6)]).run()
+            raise AssertionError("leaked lock not noticed")
+        except Stalled:
+            pass
+        try:
+            lk3 = threading.Lock()
+            lk3.acquire()
+            run_watched(lambda: lk3.acquire(), stall_s=2.0)
+            raise AssertionError("run_watched did not notice")
+        except Stalled:
+            pass
+        assert run_watched(lambda: sf.decoder("[C][=C]")) == "C=C"
+    finally:
+        STALL_S = old
